@@ -218,7 +218,7 @@ fn helpers_crossover(rep: &Reporter) {
         }
     }
     // arithmetic crossover on a value grid
-    let vals = [-3.5, 0.0, 1.0, 1e6, -1e-6];
+    let vals = [-3.5, 0.0, 1.0, 1e6, -1e-6, f64::MAX, -f64::MAX, 1.5e308, -1.5e308, 1e-320];
     let alphas = [0.0, 0.25, 0.5, 1.0, 0.9999];
     for &a in &vals {
         for &b in &vals {
@@ -228,8 +228,12 @@ fn helpers_crossover(rep: &Reporter) {
                 for i in 0..2 {
                     let (p, q) = if i == 0 { (a, b) } else { (b, a) };
                     let (lo, hi) = (p.min(q), p.max(q));
-                    let tol = 1e-9 * (1.0 + hi.abs().max(lo.abs()));
-                    if c1[i] < lo - tol || c1[i] > hi + tol || c2[i] < lo - tol || c2[i] > hi + tol || (c1[i] + c2[i] - (p + q)).abs() > tol {
+                    let tol = 1e-9 * (1.0 + hi.abs().max(lo.abs())).min(f64::MAX / 4.0);
+                    if !c1[i].is_finite() || !c2[i].is_finite() {
+                        rep.violation("arithmetic_crossover:finite-genes-give-a-non-finite-child", json!({"p1": [a, b], "p2": [b, a], "alpha": al, "c1": format!("{c1:?}"), "c2": format!("{c2:?}")}));
+                        continue;
+                    }
+                    if c1[i] < lo - tol || c1[i] > hi + tol || c2[i] < lo - tol || c2[i] > hi + tol || (c1[i] / 2.0 + c2[i] / 2.0 - (p / 2.0 + q / 2.0)).abs() > tol {
                         rep.violation("arithmetic_crossover:not-a-convex-combination-or-sum-not-conserved", json!({"p1": [a, b], "p2": [b, a], "alpha": al, "c1": c1, "c2": c2}));
                     }
                 }
